@@ -197,6 +197,191 @@ theorem xyz_roundtrip (hs : ∀ n, pyInt (showNat n) = some (n : Int)) (hb : ∀
     (Nat.le_refl _)
   subst hr
   simpa [apiFinal] using loadMany_of_runLoop _ _ _ _ _ he
+
+/-- a frame cut after m of its lines (0 < m < all): `load_one` runs into the end of the file -/
+theorem xyz_cut_stops (hs : ∀ n, pyInt (showNat n) = some (n : Int)) (h : ∀ a, pa (fa a) = some a)
+    (f : XyzFrame α) (hnl : '\n' ∉ f.title) (m : Nat) (hm0 : 0 < m) (hm : m < (xyzDumpOne showNat fa f).length)
+    (ln : Int) :
+    ∃ ln', xyzLoadOne pa ⟨(xyzDumpOne showNat fa f).take m, ln⟩ = .raise .stop ⟨[], ln'⟩ := by
+  have hneg : ¬ ((f.atoms.length : Int) < 0) := by omega
+  match m, hm0 with
+  | 1, _ => exact ⟨ln + 1 + 1, by simp [xyzDumpOne, xyzLoadOne, hs]⟩
+  | k + 2, _ =>
+    have hk : (f.atoms.take k).length < f.atoms.length := by
+      simp [xyzDumpOne, splitNl_no_nl _ (titleOr_no_nl _ hnl)] at hm
+      simp; omega
+    obtain ⟨ln', hr⟩ := readN_short pa fa h (f.atoms.take k) f.atoms.length (ln + 1 + 1) hk
+    exact ⟨ln', by
+      simp [xyzDumpOne, splitNl_no_nl _ (titleOr_no_nl _ hnl), xyzLoadOne, hs, hneg, ← List.map_take, hr]⟩
+
+/-- **truncated_last**: a file cut inside its last frame (after any number of complete frames, also none) yields
+    exactly the complete frames and then raises LoadError — never a silent end, never a partial frame. -/
+theorem xyz_truncated_last (hs : ∀ n, pyInt (showNat n) = some (n : Int)) (hb : ∀ n, isBlank (showNat n) = false)
+    (h : ∀ a, pa (fa a) = some a) (fs : List (XyzFrame α)) (hnl : ∀ f ∈ fs, '\n' ∉ f.title)
+    (f : XyzFrame α) (hf : '\n' ∉ f.title) (m : Nat) (hm0 : 0 < m) (hm : m < (xyzDumpOne showNat fa f).length) :
+    ∃ ln, loadMany xyzSkel (xyzLoadOne pa)
+        (fs.flatMap (xyzDumpOne showNat fa) ++ (xyzDumpOne showNat fa f).take m) = ⟨fs.map xyzNorm, .loadError ln⟩ := by
+  have htail : ∀ fuel ln first, fuel ≥ ((xyzDumpOne showNat fa f).take m).length + 1 →
+      EndsRaised (runLoop xyzSkel (xyzLoadOne pa) fuel first ⟨(xyzDumpOne showNat fa f).take m, ln⟩) := by
+    intro fuel ln first hfu
+    obtain ⟨s, hst⟩ := xyz_cut_stops showNat pa fa hs h f hf m hm0 hm ln
+    cases fuel with
+    | zero => simp at hfu
+    | succ fuel =>
+      have hp : runPeek .skipBlank first ⟨(xyzDumpOne showNat fa f).take m, ln⟩ =
+          .go ⟨(xyzDumpOne showNat fa f).take m, ln⟩ := by
+        match m, hm0 with
+        | k + 1, _ => simp [xyzDumpOne, skipBlank_go _ _ _ _ (hb _)]
+      obtain ⟨e', he'⟩ := runLoop_raise .skipBlank (xyzLoadOne pa) fuel first _ _ _ _ hp hst
+      exact endsRaised_of he'
+  obtain ⟨r, ⟨hr1, e, s, hr2⟩, he⟩ := runLoop_blocks_any xyzSkel (xyzLoadOne pa) (xyzDumpOne showNat fa) xyzNorm
+    (fun f => '\n' ∉ f.title) (xyz_dump_ne showNat fa)
+    (fun f hf rest ln first => xyz_step showNat pa fa hs hb h f hf rest ln first)
+    ((xyzDumpOne showNat fa f).take m) EndsRaised htail fs _ 0 true hnl (Nat.le_refl _)
+  refine ⟨s.lineno, ?_⟩
+  have := loadMany_of_runLoop _ _ _ _ _ he
+  simpa [hr1, hr2, apiFinal] using this
+
+/-- **malformed_reached**: complete frames followed by a frame on which `load_one` fails (whatever the exception:
+    a bad count, an unparsable atom line, the end of the file) — the frames before it are yielded, then LoadError
+    is raised; the bad frame is neither skipped nor does it end the sequence silently. -/
+theorem xyz_malformed_reached (hs : ∀ n, pyInt (showNat n) = some (n : Int)) (hb : ∀ n, isBlank (showNat n) = false)
+    (h : ∀ a, pa (fa a) = some a) (fs : List (XyzFrame α)) (hnl : ∀ f ∈ fs, '\n' ∉ f.title)
+    (l : Line) (t : List Line) (hl : isBlank l = false)
+    (hbad : ∀ ln, ∃ e s, xyzLoadOne pa ⟨l :: t, ln⟩ = .raise e s) :
+    ∃ ln, loadMany xyzSkel (xyzLoadOne pa) (fs.flatMap (xyzDumpOne showNat fa) ++ l :: t) =
+      ⟨fs.map xyzNorm, .loadError ln⟩ := by
+  have htail : ∀ fuel ln first, fuel ≥ (l :: t).length + 1 →
+      EndsRaised (runLoop xyzSkel (xyzLoadOne pa) fuel first ⟨l :: t, ln⟩) := by
+    intro fuel ln first hfu
+    obtain ⟨e, s, hst⟩ := hbad ln
+    cases fuel with
+    | zero => simp at hfu
+    | succ fuel =>
+      obtain ⟨e', he'⟩ := runLoop_raise .skipBlank (xyzLoadOne pa) fuel first _ _ _ _
+        (skipBlank_go l t ln first hl) hst
+      exact endsRaised_of he'
+  obtain ⟨r, ⟨hr1, e, s, hr2⟩, he⟩ := runLoop_blocks_any xyzSkel (xyzLoadOne pa) (xyzDumpOne showNat fa) xyzNorm
+    (fun f => '\n' ∉ f.title) (xyz_dump_ne showNat fa)
+    (fun f hf rest ln first => xyz_step showNat pa fa hs hb h f hf rest ln first)
+    (l :: t) EndsRaised htail fs _ 0 true hnl (Nat.le_refl _)
+  refine ⟨s.lineno, ?_⟩
+  have := loadMany_of_runLoop _ _ _ _ _ he
+  simpa [hr1, hr2, apiFinal] using this
 end xyz
+
+
+/-! ## Witnesses: the loops before the repairs (commits 634dee3 … 78fd620) violated the property; the loops of
+    the tree do not.  All by kernel evaluation of the same executable model, every line accepted as a record. -/
+
+section witnesses
+def anyLine : Line → Option Line := fun l => some l
+
+/-- xyz, second frame cut after its title: the old loop ended silently after one frame -/
+theorem xyz_old_truncated_violated :
+    loadMany xyzSkelOld (xyzLoadOne anyLine) [['2'], ['A'], ['H'], ['H'], ['1'], ['B']] =
+      ⟨[⟨['A'], [['H'], ['H']]⟩], .done⟩ := by decide
+theorem xyz_truncated_now :
+    loadMany xyzSkel (xyzLoadOne anyLine) [['2'], ['A'], ['H'], ['H'], ['1'], ['B']] =
+      ⟨[⟨['A'], [['H'], ['H']]⟩], .loadError 7⟩ := by decide
+
+/-- xyz, a blank line between two complete frames: the old loop dropped everything after it -/
+theorem xyz_old_blank_between_violated :
+    loadMany xyzSkelOld (xyzLoadOne anyLine) [['1'], ['A'], ['H'], [], ['1'], ['B'], ['H']] =
+      ⟨[⟨['A'], [['H']]⟩], .done⟩ := by decide
+theorem xyz_blank_between_now :
+    loadMany xyzSkel (xyzLoadOne anyLine) [['1'], ['A'], ['H'], [], ['1'], ['B'], ['H']] =
+      ⟨[⟨['A'], [['H']]⟩, ⟨['B'], [['H']]⟩], .done⟩ := by decide
+
+/-- sdf, second molecule cut inside its header -/
+theorem sdf_old_truncated_violated :
+    loadMany sdfSkelOld (sdfLoadOne anyLine anyLine)
+      [['A'], [], [], "  1  0 V2000".toList, ['H'], sdfEnd, ['B'], []] =
+      ⟨[⟨['A'], [['H']], []⟩], .done⟩ := by decide
+theorem sdf_truncated_now :
+    loadMany sdfSkel (sdfLoadOne anyLine anyLine)
+      [['A'], [], [], "  1  0 V2000".toList, ['H'], sdfEnd, ['B'], []] =
+      ⟨[⟨['A'], [['H']], []⟩], .loadError 9⟩ := by decide
+
+/-- pdb, a file without any molecule: the old loop yielded nothing and ended normally -/
+theorem pdb_old_garbage_violated :
+    loadMany pdbSkelOld (pdbLoadOne anyLine anyLine) [['h', 'i'], ['y', 'o']] = ⟨[], .done⟩ := by decide
+theorem pdb_garbage_now :
+    loadMany pdbSkel (pdbLoadOne anyLine anyLine) [['h', 'i'], ['y', 'o']] = ⟨[], .loadError 3⟩ := by decide
+
+/-- mol2, second molecule cut inside its atom records: the old `except (StopIteration, LoadError): return` -/
+theorem mol2_old_truncated_violated :
+    loadMany pdbSkelOld (mol2LoadOne false anyLine anyLine)
+      [tMOLECULE, ['A'], ['1', ' ', '0'], tATOM, ['x'], tMOLECULE, ['B'], ['2', ' ', '0'], tATOM, ['y']] =
+      ⟨[⟨['A'], [['x']], none⟩], .done⟩ := by decide
+theorem mol2_truncated_now :
+    loadMany mol2Skel (mol2LoadOne true anyLine anyLine)
+      [tMOLECULE, ['A'], ['1', ' ', '0'], tATOM, ['x'], tMOLECULE, ['B'], ['2', ' ', '0'], tATOM, ['y']] =
+      ⟨[⟨['A'], [['x']], none⟩], .loadError 11⟩ := by decide
+
+/-- mol2, the announced BOND section cut off: without the check a frame without bonds was yielded silently -/
+theorem mol2_old_bond_section_violated :
+    loadMany mol2Skel (mol2LoadOne false anyLine anyLine) [tMOLECULE, ['A'], ['1', ' ', '1'], tATOM, ['x']] =
+      ⟨[⟨['A'], [['x']], none⟩], .done⟩ := by decide
+theorem mol2_bond_section_now :
+    loadMany mol2Skel (mol2LoadOne true anyLine anyLine) [tMOLECULE, ['A'], ['1', ' ', '1'], tATOM, ['x']] =
+      ⟨[], .loadError 6⟩ := by decide
+
+/-- DOMAIN BOUNDARY of the round trip (current tree): a title containing a newline is printed as several lines
+    and mis-frames the file — one frame written, two different frames read, no error. -/
+theorem xyz_multiline_title_misframed_violated :
+    loadMany xyzSkel (xyzLoadOne anyLine)
+      (xyzDumpOne natDigits id (⟨['T', '\n', 'H', '\n', '0'], [['X']]⟩ : XyzFrame Line)) =
+      ⟨[⟨['T'], [['H']]⟩, ⟨['X'], []⟩], .done⟩ := by decide
+
+/-- DOMAIN BOUNDARY (current tree): a PDB frame without atoms has no record the reader recognises as a frame; it
+    merges into the next one (two frames written, one read, carrying both titles). -/
+theorem pdb_empty_frame_merged_violated :
+    loadMany pdbSkel (pdbLoadOne anyLine anyLine)
+      ([(⟨['A'], none, [], []⟩ : PdbObj Line Line), ⟨['B'], none, [['x']], []⟩].flatMap (pdbDumpOne id id)) =
+      ⟨[⟨[['A'], ['B']], [], [pATOM ++ [' ', ' ', 'x']], [], true⟩], .done⟩ := by decide
+end witnesses
+
+/-! ## FCHK: point / step bookkeeping -/
+
+theorem fchkSteps_spec (ip np len : Nat) (w : Bool) (t : FchkTag) (ht : t ∈ fchkSteps ip np len w) :
+    t.ipoint = ip ∧ t.npoint = np ∧ t.nstep = len ∧ t.istep < len ∧ t.energyIx = 2 * t.istep ∧
+      t.geomIx = t.istep := by
+  simp only [fchkSteps, List.mem_map, List.mem_range] at ht
+  obtain ⟨i, hi, rfl⟩ := ht
+  simp [hi]
+
+/-- every yielded frame carries consistent counters: `istep < nstep`, `npoint` is the number of points,
+    `ipoint` is the index of its point, the energy is entry `2*istep` and the geometry block `istep` of its point;
+    and the frames of a point are exactly `istep = 0 … nstep-1` in order (`fchkSteps`), points in file order. -/
+theorem fchk_counters (natom np : Nat) :
+    ∀ (pts : List (Nat × Option FchkPoint)) (i : Nat) (t : FchkTag), t ∈ (fchkGo natom np pts i).1 →
+      t.npoint = np ∧ i ≤ t.ipoint ∧ t.ipoint < i + pts.length ∧ t.istep < t.nstep ∧
+        t.energyIx = 2 * t.istep ∧ t.geomIx = t.istep
+  | [], _, t, ht => by simp [fchkGo] at ht
+  | (nstep, p) :: pts, i, t, ht => by
+    unfold fchkGo at ht
+    split at ht
+    · simp at ht
+    · rename_i len _
+      simp only [List.mem_append] at ht
+      cases ht with
+      | inl h1 =>
+        obtain ⟨a, b, c, d, e, f⟩ := fchkSteps_spec _ _ _ _ t h1
+        simp; omega
+      | inr h2 =>
+        obtain ⟨a, b, c, d, e, f⟩ := fchk_counters natom np pts (i + 1) t h2
+        simp; omega
+
+/-- the number of frames of a file whose points all have consistent arrays is the sum of the trajectory lengths -/
+theorem fchk_point_frames (ip np len : Nat) (w : Bool) :
+    (fchkSteps ip np len w).map (·.istep) = List.range len := by
+  simp [fchkSteps, Function.comp_def]
+
+example : fchkLoadMany 2 [(2, some ⟨4, 12, 12⟩), (1, some ⟨2, 6, 6⟩)] =
+    ([⟨0, 2, 0, 2, 0, 0, false⟩, ⟨0, 2, 1, 2, 2, 1, false⟩, ⟨1, 2, 0, 1, 0, 0, false⟩], 0, true) := by decide
+/-- inconsistent `Number of geometries`: the frames actually present are yielded, nstep is their number, one warning -/
+example : fchkLoadMany 1 [(3, some ⟨4, 6, 6⟩)] =
+    ([⟨0, 1, 0, 2, 0, 0, true⟩, ⟨0, 1, 1, 2, 2, 1, true⟩], 1, true) := by decide
 
 end Iodata.Props.C13
